@@ -1,0 +1,28 @@
+//go:build verif
+
+package snowflake_proxy
+
+// Machine-checked contracts (read by /verif/engine; comment-only, compiled only with -tags verif).
+//
+// Slot accounting primitives: one counter step and one channel operation per get/ret.
+//@ func newTokens(capacity uint) (r *tokens_t)
+//@   props C16
+//@   ensures r != nil && fresh(r) && r.capacity == capacity && r.clients == 0
+//@   ensures capacity != 0 ==> r.ch != nil && chancap(r.ch) == capacity && !closed(r.ch)
+//@   ensures capacity == 0 ==> r.ch == nil
+//
+//@ func (t *tokens_t) get()
+//@   props C16
+//@   requires t != nil && t.clients >= 0 && t.clients < 1<<62
+//@   ensures t.clients == old(t.clients) + 1
+//@   ensures sends(t.ch) == old(sends(t.ch)) + ite(t.capacity != 0, 1, 0) && recvs(t.ch) == old(recvs(t.ch))
+//
+//@ func (t *tokens_t) ret()
+//@   props C16
+//@   requires t != nil && t.clients >= 1 && t.clients < 1<<62
+//@   ensures t.clients == old(t.clients) - 1
+//@   ensures recvs(t.ch) == old(recvs(t.ch)) + ite(t.capacity != 0, 1, 0) && sends(t.ch) == old(sends(t.ch))
+//
+//@ func (t tokens_t) count() (r int64)
+//@   props C16
+//@   ensures r == t.clients
